@@ -116,17 +116,9 @@ def scanner_model(ctx, texts, rnd) -> None:
     MC_Scanner: for every input of <= N characters over three alphabets, no loop spins and every token carries
     the line/column of its first character; the pinned block-comment loop (CHECKEOF=0) must be refuted.
     Conformance (diagnostic, R3): token streams / error positions of the real scanner vs the model."""
-    n = 4 if ctx.quick else 5
-    cfg = "INIT Init\nNEXT Next\nCHECK_DEADLOCK FALSE\nINVARIANT Good\n"
-    for fam in ("comments", "operands", "misc"):
-        rs = tlc.run_sharded("MC_Scanner", cfg, tag=f"c15.scanner.{fam}", nshards=8, heap="2g",
-                             env={"MAXLEN": n, "FAMILY": fam, "CHECKEOF": 1}, timeout=7200)
-        ctx.add_tlc(rs, f"MC_Scanner family={fam}: all inputs <= {n} characters, NoSpin + PositionLaw")
-    m = tlc.run("MC_Scanner", cfg, tag="c15.scanner.mutant", allow_violation=True,
-                env={"MAXLEN": 3, "FAMILY": "comments", "CHECKEOF": 0, "SHARD": 0, "NSHARDS": 1})
-    if m.violated != "Good":
-        raise tlc.TLCFailure("spec mutant CHECKEOF=0 (pinned comment loop) was not refuted by MC_Scanner")
-    ctx.note("spec mutant CHECKEOF=0 (pinned block-comment loop) refuted by TLC on the scanner model, as required")
+    from harness import scanmc
+    scanmc.design(ctx, 4 if ctx.quick else 5)
+    scanmc.refute_pinned_comment_loop(ctx)
     sample = [t for t in texts if len(t) <= 60]
     rnd.shuffle(sample)
     sample = sample[: (4000 if ctx.quick else 60000)]
